@@ -85,6 +85,7 @@ type FnTr struct {
 	curLoops []*loopFrame
 	lockDepth map[string]*Term
 	curInstr ssa.Instruction
+	typedObjs []typedObj
 	lockSites [][2]*Term // mutex addresses locked/unlocked somewhere in the function
 	fnFrame  []cellRange // declared modifies of the top-level function, evaluated at entry
 	storeChecks bool     // recovering function with a frame: every write is checked against it
@@ -698,7 +699,7 @@ func (tr *FnTr) procLoop(l *Loop) {
 	if l.ct != nil {
 		ctx := tr.specCtxAt(est, entryPhi, h)
 		for _, m := range l.ct.Modifies {
-			fr.frame = append(fr.frame, ctx.evalLval(m.E)...)
+			fr.frame = append(fr.frame, ctx.lvals(m.E)...)
 		}
 	}
 	for i, c := range invs {
@@ -968,7 +969,126 @@ func (tr *FnTr) freshVal(base string, T types.Type, alloc *Term) Val {
 }
 
 // assumeTyped asserts the typing facts of a value (ranges, header shape).
+// typeContains reports whether a value of type G holds a T inline (not behind a pointer).
+func typeContains(G, T types.Type, depth int) bool {
+	if types.Identical(G, T) {
+		return true
+	}
+	if depth > 6 {
+		return true
+	}
+	switch g := G.Underlying().(type) {
+	case *types.Struct:
+		for i := 0; i < g.NumFields(); i++ {
+			if typeContains(g.Field(i).Type(), T, depth+1) {
+				return true
+			}
+		}
+	case *types.Array:
+		return typeContains(g.Elem(), T, depth+1)
+	}
+	// an element of basic type may be viewed through any same-kind basic type
+	if bg, bt := basicOf(G), basicOf(T); bg != nil && bt != nil && bg.Kind() == bt.Kind() {
+		return true
+	}
+	return false
+}
+
+type typedObj struct {
+	obj  *Term
+	elem types.Type
+}
+
+// refElem: the element type a reference leaf at index i of v points to.
+func refElem(T types.Type, lay *Layout, i int) types.Type {
+	// find the static pointer/slice type by its recorded string: cheaper to recompute
+	var found types.Type
+	var walk func(t types.Type, base int) int
+	walk = func(t types.Type, base int) int {
+		switch u := t.Underlying().(type) {
+		case *types.Pointer:
+			if base == i {
+				found = u.Elem()
+			}
+			return base + 2
+		case *types.Slice:
+			if base == i {
+				found = u.Elem()
+			}
+			return base + 4
+		case *types.Struct:
+			for k := 0; k < u.NumFields(); k++ {
+				base = walk(u.Field(k).Type(), base)
+			}
+			return base
+		case *types.Array:
+			es := sizeOf(u.Elem())
+			if i >= base && i < base+int(u.Len())*es && es > 0 {
+				k := (i - base) / es
+				walk(u.Elem(), base+k*es)
+			}
+			return base + int(u.Len())*es
+		case *types.Tuple:
+			for k := 0; k < u.Len(); k++ {
+				base = walk(u.At(k).Type(), base)
+			}
+			return base
+		}
+		return base + sizeOf(t)
+	}
+	walk(T, 0)
+	return found
+}
+
+// globalSeparation: an object reached through a reference to T is not a package-level
+// variable whose type holds no T (Go type safety; no unsafe).
+func (tr *FnTr) globalSeparation(obj *Term, elem types.Type) {
+	if obj.IntConst() != nil || elem == nil {
+		return
+	}
+	top := tr.top
+	top.typedObjs = append(top.typedObjs, typedObj{obj, elem})
+	var cs []*Term
+	for g, id := range tr.eng.globals {
+		gt := g.Type().Underlying().(*types.Pointer).Elem()
+		if !typeContains(gt, elem, 0) {
+			cs = append(cs, Ne(obj, Int(id)))
+		}
+	}
+	if len(cs) > 0 {
+		tr.vc.Assume(And(cs...))
+	}
+}
+
+// globalSepFacts: the separation facts of all reference leaves of v, as a term.
+func (tr *FnTr) globalSepFacts(v Val) *Term {
+	lay := layoutOf(v.T)
+	var cs []*Term
+	for i, lf := range lay.Leaves {
+		if lf.K != LObj || lf.Str || v.L[i].IntConst() != nil {
+			continue
+		}
+		elem := refElem(v.T, lay, i)
+		if elem == nil {
+			continue
+		}
+		for g, id := range tr.eng.globals {
+			gt := g.Type().Underlying().(*types.Pointer).Elem()
+			if !typeContains(gt, elem, 0) {
+				cs = append(cs, Ne(v.L[i], Int(id)))
+			}
+		}
+	}
+	return And(cs...)
+}
+
 func (tr *FnTr) assumeTyped(v Val, alloc *Term) {
+	lay0 := layoutOf(v.T)
+	for i, lf := range lay0.Leaves {
+		if lf.K == LObj && !lf.Str && alloc != nil {
+			tr.globalSeparation(v.L[i], refElem(v.T, lay0, i))
+		}
+	}
 	tr.vc.Assume(typingFacts(v, alloc))
 	if alloc != nil {
 		for i, lf := range layoutOf(v.T).Leaves {
